@@ -232,8 +232,44 @@ def known_findings(ck: Check) -> None:
             ck.known(f["id"], f["what"])
 
 
+SPECIAL_TEXTS = ["a\rb", "a\nb", "a\r\nb", 'a"""b', 'a"', "a\\", "a\\n", "a\x00b", "a\x0cb", "a\x85b", "a b", "#", "{{ 1 }}", "'" * 3]
+
+
+def campaign_text_slots(ck: Check) -> None:
+    """Every description slot × every model kind × special texts, with identifier and non-identifier keys
+    (class and functional TypedDict syntax) and GraphQL union / type / scalar / enum descriptions."""
+    camp = ck.campaign("e2e: special texts in every description slot (JSON Schema + GraphQL), all model kinds")
+    t0 = time.time()
+    opts = {"use_schema_description": True, "use_field_description": True}
+    for text in SPECIAL_TEXTS:
+        doc = {
+            "type": "object",
+            "description": text,
+            "properties": {"plain": {"type": "string", "description": text}, "x-y": {"type": "integer", "description": text}},
+            "definitions": {"E": {"type": "string", "enum": ["a", "b"], "description": text}},
+        }
+        for model in e2e.MODEL_KINDS:
+            run_case(ck, camp, {"doc": doc, "model": model, "opts": dict(opts)})
+        if "\x00" in text:
+            continue  # not expressible in SDL
+        try:
+            import graphql
+
+            block = graphql.print_ast(graphql.StringValueNode(value=text, block=False))
+        except Exception:  # noqa: BLE001
+            continue
+        sdl = f"{block}\nunion U = A | B\n{block}\ntype A {{ f_x: Int }}\n{block}\ntype B {{ f_y: Int }}\n{block}\nscalar S\n{block}\nenum En {{ P Q }}\n"
+        for model in e2e.MODEL_KINDS:
+            run_case(ck, camp, {"doc": sdl, "model": model, "opts": dict(opts), "input_file_type": "graphql", "clean": False})
+    camp.wall_s = time.time() - t0
+
+
 def run(ck: Check) -> None:
     quick = ck.tier == "quick"
+    from ..translate import esc, templates
+
+    ck.translate("EscTables", esc.generate())
+    ck.translate("Templates", templates.generate())
     ck.prove()
     ck.assumptions += [
         "no Python grammar is modelled: grammatical validity of the emitted token skeletons is established by ast.parse(feature_version=target) over the campaign, not by a theorem",
@@ -241,6 +277,7 @@ def run(ck: Check) -> None:
         "only Python 3.12 is available: other targets are checked with ast.parse(feature_version=…) only",
     ]
     campaign_repr(ck, 1500 if quick else 20000)
+    campaign_text_slots(ck)
     campaign_e2e(ck, 150 if quick else 2500, 200 if quick else 3500)
     known_findings(ck)
 
